@@ -1,7 +1,8 @@
 (** C17 — Stream-based socket layers are independent of how TCP segments the bytes.
     Statements only; every proof is [exact <lemma>] from coq/Stream/*Proofs.v (examples are closed by [vm_compute]).
-    The models follow the repaired code (fix commits 509c336 4b5b4ef a4cf846 bc18d98 b519949 9934485 fcd7bcb);
-    the refutation witnesses of the seven defects those commits removed are kept below as regression
+    The models follow the repaired code (fix commits 509c336 4b5b4ef a4cf846 bc18d98 b519949 9934485 fcd7bcb and the
+    eighth fix: http.c hands out what is left in its ring buffer before reading the base socket again);
+    the refutation witnesses of the defects those commits removed are kept below as regression
     examples: the same inputs now give the intended result.
 
     Vocabulary (coq/Stream/StreamBase.v): [run body w cs] delivers the chunks [cs] as successive readable
@@ -13,7 +14,7 @@ From Coq Require Import ZArith List Bool.
 From Nice Require Import Stream.StreamBase Stream.StreamProofs
   Stream.TurnTcpModel Stream.TurnTcpProofs Stream.TcpQueueModel Stream.TcpQueueProofs
   Stream.PsslModel Stream.PsslProofs Stream.Socks5Model Stream.Socks5Proofs Stream.HttpModel Stream.HttpProofs
-  Stream.HttpSegProofs Stream.HttpSmallProofs.
+  Stream.HttpSegProofs.
 Import ListNotations.
 Local Open Scope Z_scope.
 
@@ -184,51 +185,48 @@ Definition HTTP_CL_TAIL : list Z := [13; 10; 13; 10; 97; 98; 99].
 
 (** [http_spec q T] is a function of the byte stream alone (the reply parser run over the whole stream as a
     list; [q] = sends queued before the handshake): what is seen upward and downward, and whether the socket
-    is alive.  The layer is driven with a receive buffer of [UPCAP] = 70000 bytes per call.
+    is alive.  A run is a list of readable events [(cap, chunk)]: the chunk TCP delivered, and the size of the
+    caller's receive buffer during that event ([caps_ok]: every size is at least 1); within an event the
+    layer is called until it would block (the agent's read loop).
 
-    For every stream of at most [UPCAP] bytes, EVERY chunking yields exactly [http_spec] — no side condition
-    on the execution; hence any two chunkings of such a stream agree. *)
-Theorem C17_seg_independent_http : forall G q cs, lenZ (concat cs) <= UPCAP ->
-  vis vis_str (snd (run (http_body G) (alive (http_start q)) cs)) = fst (http_spec q (concat cs)) /\
-  dead (fst (run (http_body G) (alive (http_start q)) cs)) = snd (http_spec q (concat cs)).
-Proof. exact http_seg_independent_small. Qed.
+    EVERY chunking of a stream, with ANY caller buffer sizes, yields exactly [http_spec] — no side condition:
+    hence any two deliveries of the same stream agree, whatever their chunkings and buffer sizes. *)
+Theorem C17_seg_independent_http : forall G q cs, caps_ok cs ->
+  vis vis_str (snd (http_run G (alive (http_start q)) cs)) = fst (http_spec q (stream_of cs)) /\
+  dead (fst (http_run G (alive (http_start q)) cs)) = snd (http_spec q (stream_of cs)).
+Proof. exact http_seg_independent. Qed.
 
-Corollary C17_seg_independent_http_two_chunkings : forall G q cs cs', concat cs = concat cs' ->
-  lenZ (concat cs) <= UPCAP ->
-  vis vis_str (snd (run (http_body G) (alive (http_start q)) cs)) =
-  vis vis_str (snd (run (http_body G) (alive (http_start q)) cs')) /\
-  dead (fst (run (http_body G) (alive (http_start q)) cs)) = dead (fst (run (http_body G) (alive (http_start q)) cs')).
+Corollary C17_seg_independent_http_two_chunkings : forall G q cs cs', stream_of cs = stream_of cs' ->
+  caps_ok cs -> caps_ok cs' ->
+  vis vis_str (snd (http_run G (alive (http_start q)) cs)) =
+  vis vis_str (snd (http_run G (alive (http_start q)) cs')) /\
+  dead (fst (http_run G (alive (http_start q)) cs)) = dead (fst (http_run G (alive (http_start q)) cs')).
 Proof.
-  intros G q cs cs' E C. destruct (http_seg_independent_small G q cs C) as [A B].
-  rewrite E in C. destruct (http_seg_independent_small G q cs' C) as [A' B']. rewrite A, B, A', B', E. split; reflexivity.
+  intros G q cs cs' E C C'. destruct (http_seg_independent G q cs C) as [A B].
+  destruct (http_seg_independent G q cs' C') as [A' B']. rewrite A, B, A', B', E. split; reflexivity.
 Qed.
 
-(** For longer streams the same holds for every delivery in which the bytes that follow the proxy reply in
-    the read that completes it fit the caller's buffer ([clean] = no [Mark]; the only [Mark] the model can
-    still emit is 3 = "more than UPCAP bytes were left in the ring at hand-over").  That exception is real in
-    the repaired code: memcpy_ring_buffer_to_input_messages copies what fits, the rest stays in the ring and
-    the connected fast path never looks at the ring again.  It needs a single read of more than 70000 bytes
-    after the reply, hence a ring of at least 128 KiB, hence a header line of more than 64 KiB: reproduced
-    on the real code (notes/C17.md), not as a Coq witness (a 200 KB stream is out of reach of vm_compute). *)
-Theorem C17_seg_independent_http_except_oversize_leftover : forall G q cs,
-  clean (snd (run (http_body G) (alive (http_start q)) cs)) = true ->
-  vis vis_str (snd (run (http_body G) (alive (http_start q)) cs)) = fst (http_spec q (concat cs)) /\
-  dead (fst (run (http_body G) (alive (http_start q)) cs)) = snd (http_spec q (concat cs)).
-Proof. exact http_seg_independent. Qed.
+(** regression (eighth fix): 10 bytes follow the reply in the same read, the caller's buffer holds 4 (what
+    udp-turn-over-tcp on top of this layer asks for): all 10 come out, in order, over three calls; then the
+    next chunk.  Before the fix bytes 5..10 stayed in the ring buffer for good. *)
+Example C17_http_small_buffer_regression :
+  vis vis_str (snd (http_run 190 (alive http_init) [(4, HTTP_OK ++ [1; 2; 3; 4; 5; 6; 7; 8; 9; 10]); (4, [11; 12])])) =
+  map OByte [1; 2; 3; 4; 5; 6; 7; 8; 9; 10; 11; 12].
+Proof. vm_compute. reflexivity. Qed.
 
 (** regressions (a4cf846, b519949, bc18d98): bytes following the reply in the same read are delivered; a
     reply cut right after a Content-Length digit parses; a header line longer than the free space (ring
     grown while wrapped) gives the same result whatever the uninitialised heap bytes are *)
 Example C17_http_trailing_regression :
-  vis vis_str (snd (run (http_body 190) (alive http_init) [HTTP_OK ++ [1; 2]])) = [OByte 1; OByte 2].
+  vis vis_str (snd (http_run 190 (alive http_init) [(UPCAP, HTTP_OK ++ [1; 2])])) = [OByte 1; OByte 2].
 Proof. vm_compute. reflexivity. Qed.
 Example C17_http_digit_regression :
-  vis vis_str (snd (run (http_body 190) (alive http_init) [HTTP_CL_HEAD; HTTP_CL_TAIL; [1; 2]])) = [OByte 1; OByte 2].
+  vis vis_str (snd (http_run 190 (alive http_init) [(UPCAP, HTTP_CL_HEAD); (UPCAP, HTTP_CL_TAIL); (UPCAP, [1; 2])])) = [OByte 1; OByte 2].
 Proof. vm_compute. reflexivity. Qed.
 Example C17_http_grow_wrapped_regression :
-  let cs := [[72; 84; 84; 80; 47; 49; 46; 48; 32; 50; 48; 48; 32; 79; 75; 13; 10; 88; 45; 76; 111; 110; 103; 58; 32] ++ repZ 113 1100 ++ [13; 10; 13; 10]; [1; 2]] in
-  vis vis_str (snd (run (http_body 190) (alive http_init) cs)) = [OByte 1; OByte 2] /\
-  vis vis_str (snd (run (http_body 13) (alive http_init) cs)) = [OByte 1; OByte 2].
+  let cs := [(UPCAP, [72; 84; 84; 80; 47; 49; 46; 48; 32; 50; 48; 48; 32; 79; 75; 13; 10; 88; 45; 76; 111; 110; 103; 58; 32] ++ repZ 113 1100 ++ [13; 10; 13; 10]); (UPCAP, [1; 2])] in
+  vis vis_str (snd (http_run 190 (alive http_init) cs)) = [OByte 1; OByte 2] /\
+  vis vis_str (snd (http_run 13 (alive http_init) cs)) = [OByte 1; OByte 2].
 Proof. vm_compute. split; reflexivity. Qed.
 
 (** the specification is the intended meaning: reply, body skipped, the rest is tunnelled *)
@@ -239,22 +237,24 @@ Example C17_http_spec_example :
 Proof. vm_compute. repeat split; reflexivity. Qed.
 
 Example C17_http_seg_nonvacuous :
-  let cs := [takeZ 5 HTTP_REPLY_CL; takeZ 20 (dropZ 5 HTTP_REPLY_CL); dropZ 25 HTTP_REPLY_CL ++ [1]; [2]] in
-  vis vis_str (snd (run (http_body 190) (alive (http_start [[9]])) cs)) = [ODn [9]; OByte 1; OByte 2].
+  let cs := [(16, takeZ 5 HTTP_REPLY_CL); (1, takeZ 20 (dropZ 5 HTTP_REPLY_CL)); (2, dropZ 25 HTTP_REPLY_CL ++ [1; 2; 3]); (UPCAP, [4])] in
+  vis vis_str (snd (http_run 190 (alive (http_start [[9]])) cs)) = [ODn [9]; OByte 1; OByte 2; OByte 3; OByte 4].
 Proof. vm_compute. reflexivity. Qed.
 
-Theorem C17_tunnel_transparent_http : forall G s cs rel bufs, h_state s = HT_CONNECTED -> h_base s = true ->
-  fst (run (http_body G) (alive s) cs) = alive s /\
-  vis vis_str (snd (run (http_body G) (alive s) cs)) = map OByte (concat cs) /\
+Theorem C17_tunnel_transparent_http : forall G s cs rel bufs, h_state s = HT_CONNECTED -> hinv s -> h_fill s = 0 ->
+  caps_ok cs ->
+  fst (http_run G (alive s) cs) = alive s /\
+  vis vis_str (snd (http_run G (alive s) cs)) = map OByte (stream_of cs) /\
   http_send s rel bufs = (s, [Dn (concat bufs); Snd 1]).
 Proof.
-  intros G s cs rel bufs H B. destruct (http_tunnel_transparent G s cs H B). repeat split; auto.
-  exact (http_send_transparent s rel bufs H B).
+  intros G s cs rel bufs H I F C. destruct (http_tunnel_transparent G s H I F cs C). repeat split; auto.
+  destruct I as (_ & _ & _ & _ & B). exact (http_send_transparent s rel bufs H (B H)).
 Qed.
 
-(** no byte stream, however cut, makes the HTTP layer index outside its ring buffer, fail one of its
-    assertions, run a parser loop out of its bound, or spin without consuming input *)
-Theorem C17_no_fault_http : forall G cs,
-  ~ In EFault (snd (run (http_body G) (alive http_init) cs)) /\
-  ~ In ELive (snd (run (http_body G) (alive http_init) cs)).
+(** no byte stream, however cut and whatever the caller's buffer sizes, makes the HTTP layer index outside its
+    ring buffer, fail one of its assertions, run a parser loop out of its bound, or spin without progress
+    (in particular every readable event ends: the read-until-would-block loop terminates) *)
+Theorem C17_no_fault_http : forall G cs, caps_ok cs ->
+  ~ In EFault (snd (http_run G (alive http_init) cs)) /\
+  ~ In ELive (snd (http_run G (alive http_init) cs)).
 Proof. exact http_no_fault. Qed.
